@@ -171,6 +171,24 @@ impl Router {
     }
 
     fn on_request(&self, request: Request) -> bool {
+        use std::panic::AssertUnwindSafe;
+
+        // the client waits for exactly one response per request: a handler that panics must
+        // still answer, with an error
+        let id = request.id.clone();
+        panic::catch_unwind(AssertUnwindSafe(|| self.serve_request(request))).unwrap_or_else(
+            |_| {
+                self.respond(Response::new_err(
+                    id,
+                    ErrorCode::InternalError as i32,
+                    "request handler panicked".to_string(),
+                ));
+                false
+            },
+        )
+    }
+
+    fn serve_request(&self, request: Request) -> bool {
         #[cfg(feature = "verif-hooks")]
         let hook_id = request.id.to_string();
         #[cfg(feature = "verif-hooks")]
